@@ -21,7 +21,7 @@ RULE = ("scenario = (timestamp sequence per source, max_concurrent, sniffers?, d
         "runs on the real dispatcher. Distinct = distinct (scenario, invocation trace); non-trivial = at least two "
         "handler invocations.")
 ASSUMPTIONS = [
-    "timestamps on {1,2,3}; <=2 sources x <=2 events (quick), <=3 sources / <=3 events (thorough); 2 handlers per source",
+    "timestamps on {1, 1.5, 3}; <=2 sources x <=2 events (quick), <=3 sources / <=3 events (thorough); 2 handlers per source",
     "sources yield their events in non-decreasing time order (premise of the property); derived events carry a time >= now",
     "CPython FIFO ready-queue order is kept; only suspension patterns and external completion order are permuted",
 ]
@@ -32,10 +32,13 @@ EXPLANATION = ("implementation-level model checking: every explored trace is an 
                "observations")
 
 
+GRID = (1, 1.5, 3)  # two values share a UTC second: sub-second resolution matters
+
+
 def _seqs(maxlen):
     out = []
     for n in range(0, maxlen + 1):
-        out.extend(itertools.combinations_with_replacement((1, 2, 3), n))
+        out.extend(itertools.combinations_with_replacement(GRID, n))
     return out
 
 
@@ -90,10 +93,10 @@ def make_run(sc, states=None):
                     ne = bs.Event(d.now() if push_derived == 1 else T(secs(d.now()) + 1))
                     pushed.append((eid(ne), secs(ne.when)))
                     dsrc.push(ne)
-                if sched_past and secs(e.when) >= 2:
+                if sched_past and secs(e.when) >= 1.5:
                     async def pj():
                         trace.append(("job", secs(d.now())))
-                    d.schedule(T(secs(e.when) - 1), pj)
+                    d.schedule(T(secs(e.when) - 0.3), pj)
                 note()
                 await gates.suspend(hname)
                 trace.append(("end", hname, eid(e), secs(d.now())))
